@@ -40,7 +40,8 @@ def run(chk):
     from . import c01
     ft = prog.fn("json_tokener_parse_ex")
     chk.require(ft is not None, "json_tokener_parse_ex not found")
-    c01.r6(chk, prog, ft)        # re-parsing: the number read back is the library conversion of the emitted text
+    with chk.shared():
+        c01.r6(chk, prog, ft)        # re-parsing: the number read back is the library conversion of the emitted text
     chk.undecided_clauses += [
         "exactness of the %.17g double text itself (libc's conversion; value-level)",
         "parse(serialize(T)) == T and re-serialization identity (needs both executions)",
@@ -75,13 +76,32 @@ class EscPE(pe.PE):
                         return ("ptr", "@" + v.v, ())
         return pe.TOP
 
+    def _snapshot(self, state, src, ln):
+        """the bytes a local buffer holds at the moment it is appended (the buffer may be reused later on the path)"""
+        if src[0] != "ptr" or src[1] == "str" or src[1].startswith("@") or not pe.is_const(ln) or not (0 < ln[1] <= 16):
+            return None
+        loc0 = self._loc(state, src)
+        if loc0 is None:
+            return None
+        el0, fl0 = pe.fields_of(loc0[1])
+        if fl0 or not isinstance(el0, int):
+            return None
+        out = []
+        for k in range(ln[1]):
+            idx = el0 + k
+            v = state.mem.get((src[1], (("i", idx),) if idx else ()))
+            if v is None or not pe.is_const(v):
+                return None
+            out.append(v[1] % 256)
+        return bytes(out)
+
     def call_model(self, state, frame, i, args):
         nm = i.callee
         if nm in ("printbuf_memappend", "snprintf"):
-            state.trace.append(("call", nm, tuple(args)))
+            state.trace.append(("call", nm, tuple(args), self._snapshot(state, args[1], args[2]) if nm == "printbuf_memappend" else None))
             return pe.C(0) if nm == "printbuf_memappend" else pe.C(6)
         if nm and nm.startswith("llvm.memcpy"):
-            state.trace.append(("call", "memcpy", tuple(args)))
+            state.trace.append(("call", "memcpy", tuple(args), self._snapshot(state, args[1], args[2])))
             return pe.C(0)
         return None
 
@@ -93,8 +113,10 @@ def _lit(P, v):
     g = P.global_bytes(v[1][1:])
     if g is None:
         return None
-    el, fl = pe.fields_of(v[2])
-    return g[el:] if isinstance(el, int) else None
+    # array-to-pointer decay followed by an element step is one offset: ((i,0),(i,k)) == ((i,k),)
+    path = [q for k, q in enumerate(v[2]) if not (q == ("i", 0) and k + 1 < len(v[2]) and isinstance(v[2][k + 1], tuple) and v[2][k + 1][0] == "i")]
+    el, fl = pe.fields_of(tuple(path))
+    return g[el:] if isinstance(el, int) and not fl else None
 
 
 def _escape_output(prog, f, byte, flags):
@@ -129,7 +151,9 @@ def _escape_output(prog, f, byte, flags):
                 n = ln[1]
                 if src[0] == "ptr" and src[1] == "str":
                     el, fl = pe.fields_of(src[2])
-                    if fl or not isinstance(el, int) or el < 0 or el + n > len(data):
+                    if not fl and isinstance(el, int) and el >= 0 and el + n > len(data):
+                        out += data[el:] + b"<%d byte(s) past the end of the string>" % (el + n - len(data))
+                    elif fl or not isinstance(el, int) or el < 0:
                         ok = False
                     else:
                         out += data[el:el + n]
@@ -139,11 +163,26 @@ def _escape_output(prog, f, byte, flags):
                         ok = False
                     else:
                         out += lit[:n]
-                elif src[0] == "ptr" and "sbuf" in src[1]:
-                    if sbuf is None or n != 6:
+                elif src[0] == "ptr" and "sbuf" in src[1] and sbuf is not None and n == 6:
+                    out += sbuf
+                elif src[0] == "ptr" and len(e) > 3 and e[3] is not None:
+                    out += e[3]          # snapshot of a local buffer taken when it was appended
+                elif src[0] == "ptr":
+                    # a local buffer filled byte by byte: the bytes stored on this path
+                    loc0 = P._loc(l.state, src)
+                    el0, fl0 = pe.fields_of(loc0[1]) if loc0 is not None else (None, ())
+                    bs = []
+                    for k in range(n):
+                        idx = (el0 + k) if isinstance(el0, int) and not fl0 else None
+                        v = l.state.mem.get((src[1], (("i", idx),) if idx else ())) if idx is not None else None
+                        if v is None or not pe.is_const(v):
+                            bs = None
+                            break
+                        bs.append(v[1] % 256)
+                    if bs is None:
                         ok = False
                     else:
-                        out += sbuf
+                        out += bytes(bs)
                 else:
                     ok = False
         outs.add(bytes(out) if ok else None)
@@ -162,6 +201,7 @@ def r1(chk, prog, m):
     rev = {v: k for k, v in RFC_ESC.items()}     # byte value -> escape letter
     n = 0
     bad_rows = []
+    und_rows = []
     for flags in (0, F_NOSLASH):
         for b in range(256):
             n += 1
@@ -174,7 +214,9 @@ def r1(chk, prog, m):
                 want = {("\\u00%02x" % b).encode()}
             else:
                 want = {bytes([b])}
-            if outs != want:
+            if None in outs:
+                und_rows.append((b, flags))
+            elif outs != want:
                 bad_rows.append((b, flags, outs, want))
     # report per class to keep obligations readable
     classes = [("control characters with a short escape", [0x08, 0x0C, 0x0A, 0x0D, 0x09]), ("quote and backslash", [0x22, 0x5C]),
@@ -185,11 +227,15 @@ def r1(chk, prog, m):
         for flags in (0, F_NOSLASH):
             rows = [r for r in bad_rows if r[0] in members and r[1] == flags]
             sig = "%s, %s" % (name, "NOSLASHESCAPE" if flags else "default")
+            urows = [r for r in und_rows if r[0] in members and r[1] == flags]
             if rows:
                 b, fl, outs, want = rows[0]
                 chk.refuted(rid, f.name, sig, f.entry.term.locstr(),
                             "byte 0x%02x is written as %s; RFC 8259 section 7 / the parser's decode table require %s"
                             % (b, sorted(repr(o) for o in outs), sorted(repr(w) for w in want)), {"rows": len(rows)})
+            elif urows:
+                chk.undecided(rid, f.name, sig, f.entry.term.locstr(),
+                              "the bytes appended for 0x%02x could not be reconstructed from the evaluation (%d byte values)" % (urows[0][0], len(urows)))
             else:
                 chk.proven(rid, f.name, sig, f.entry.term.locstr(), "%d byte values as required" % len(members))
     chk.floor(rid, n, 512, "escape table rows")
@@ -382,63 +428,74 @@ def r3(chk, prog, m):
                     chk.proven(rid, fname, sig, i.locstr(), "tested")
                 else:
                     chk.refuted(rid, fname, sig, i.locstr(), "the child serializer's result is %s: its failure is lost" % sorted(fates))
+    # json_object_to_json_string_length by partial evaluation: for a NULL node, an allocation failure of the node's buffer, and
+    # serializer results -1 / 0 / 5: the text handed out is the node's buffer exactly when the serializer did not fail, the length
+    # stored is that buffer's bpos (or the literal's length), and a failure hands out NULL
     f = prog.fn("json_object_to_json_string_length")
-    P = Paths(f, prog)
-    # text returned: jso->_pb->buf ; length stored: jso->_pb->bpos ; both taken on the same edge, under result >= 0
-    def strip(v):
-        while v.kind == "reg" and v.v in f.defs and f.defs[v.v].op in ("sext", "zext", "trunc", "bitcast"):
-            v = f.defs[v.v].ops[0]
-        return v
-    rets = [b.term for b in f.blocks.values() if b.term.op == "ret"]
-    stores = [i for i in f.instrs() if i.op == "store" and P.path(i.ops[1]).startswith(f.params[2][1])]
-    ok = False
-    why = "returned text and reported length do not come from the same print buffer"
+    BPOS = 7
 
-    def pairs(rv, sv, depth=0):
-        """leaf (text, length, edge label) pairs of two phis that merge in the same blocks"""
-        rv, sv = strip(rv), strip(sv)
-        rd = f.defs.get(rv.v) if rv.kind == "reg" else None
-        sd = f.defs.get(sv.v) if sv.kind == "reg" else None
-        if rd is not None and sd is not None and rd.op == "phi" and sd.op == "phi" and rd.block is sd.block and depth < 6:
-            out = []
-            sm = {lab: v for v, lab in sd.x["incoming"]}
-            for v, lab in rd.x["incoming"]:
-                if lab not in sm:
-                    return None
-                sub = pairs(v, sm[lab], depth + 1)
-                if sub is None:
-                    return None
-                out += [(a, b_, l if l is not None else lab) for a, b_, l in sub]
-            return out
-        return [(rv, sv, None)]
-    if rets and rets[0].ops and stores:
-        pl = pairs(rets[0].ops[0], stores[0].ops[0])
-        if pl:
-            succ = [(a, b_, l) for a, b_, l in pl if a.kind == "reg" and "_pb->buf" in P.path(a)]
-            calls = [i for i in f.instrs() if i.op == "call" and i.callee is None]
-            if succ and all(b_.kind == "reg" and "_pb->bpos" in P.path(b_) for a, b_, l in succ):
-                good = True
-                for a, b_, l in succ:
-                    g2 = False
-                    for c, tr in dominating_conditions(f, f.blocks[l]):
-                        if getattr(c, "op", None) == "icmp" and strip(c.ops[0]).kind == "reg" and calls and strip(c.ops[0]).v == calls[0].res:
-                            if (c.x["pred"], tr) in (("sge", True), ("slt", False), ("sgt", True)):
-                                g2 = True
-                    good = good and g2
-                ok = good
-                if not good:
-                    why = "text and length are handed out without the serializer's result having been found non-negative"
-                for a, b_, l in pl:
-                    if (a, b_, l) in succ:
-                        continue
-                    if not ((a.kind == "null" and b_.kind == "int" and b_.v == 0) or (a.kind in ("global", "cexpr") and b_.kind == "int")):
-                        ok = False
-                        why = "a path returns text / length that is neither the freshly serialized buffer nor NULL/0 nor a literal"
+    class _LenPE(pe.PE):
+        def should_inline(self, g, instr):
+            return g.internal
+
+        def init_mem(self, state, base, path, t):
+            el, fl = pe.fields_of(path)
+            if base == "jso" and t.endswith("*") and "printbuf" in t:
+                return self.fresh_root(state, "haspb", [0, 1]) and ("ptr", "pb", ())
+            if base == "pb" and t == "i32":
+                return pe.C(BPOS)
+            if base == "pb" and t.endswith("*"):
+                return ("ptr", "pbbuf", ())
+            return pe.TOP
+
+        def call_model(self, state, frame, i, args):
+            nm = i.callee
+            if nm is None:
+                state.trace.append(("serializer", tuple(args)))
+                return self.fresh_root(state, "rc", [-1, 0, 5])
+            if nm == "printbuf_new":
+                return ("ptr", "pb", ())
+            if nm == "printbuf_reset":
+                return pe.C(0)
+            return None
+    bad = None
+    nleaf = 0
+    for jso_arg in (("ptr", "jso", ()), pe.C(0)):
+        h = _LenPE(prog, max_leaves=200, max_steps=50000)
+        leaves = h.run(f, [jso_arg, pe.C(0), ("ptr", "lenout", ())], pe.State())
+        for lf in leaves:
+            if lf.kind != "ret":
+                bad = bad or "evaluation ended with %s" % lf.kind
+                continue
+            nleaf += 1
+            ln = lf.state.mem.get(("lenout", ()))
+            rcs = [lf.state.roots[r] for r in lf.state.roots if r.startswith("rc#")]
+            failed = any(set(x) == {-1} for x in rcs)
+            called = bool(rcs)
+            v = lf.value
+            if v is not None and v[0] == "ptr" and v[1] == "pbbuf":
+                if not called or failed or any(-1 in x for x in rcs):
+                    bad = bad or "the buffer is handed out although the serializer %s" % ("failed" if called else "was not run")
+                elif ln is None or not pe.is_const(ln) or ln[1] != BPOS:
+                    bad = bad or "the buffer is handed out but the reported length is not its bpos (%r)" % (ln,)
+            elif v is not None and v[0] == "ptr" and v[1].startswith("@"):
+                lit = h.global_bytes(v[1][1:])
+                want = len(lit.split(b"\0")[0]) if lit else None
+                if ln is None or not pe.is_const(ln) or ln[1] != want:
+                    bad = bad or "a literal is handed out with length %r instead of %r" % (ln, want)
+            elif v is not None and pe.is_const(v) and v[1] == 0:
+                if called and not any(-1 in x for x in rcs):
+                    bad = bad or "NULL is returned although the serializer succeeded"
+            else:
+                bad = bad or "a path returns %r, which is neither the node's buffer, a literal nor NULL" % (v,)
     n += 1
-    if ok:
-        chk.proven(rid, f.name, "text and length", f.entry.term.locstr(), "text is _pb->buf and the reported length _pb->bpos of the same buffer, only after a non-negative result")
+    if bad is None and nleaf >= 3:
+        chk.proven(rid, f.name, "text and length", f.entry.term.locstr(),
+                   "on %d evaluated outcomes: buffer + its bpos after a non-negative result, literal + its length for a NULL node, NULL otherwise" % nleaf)
+    elif bad is None:
+        chk.undecided(rid, f.name, "text and length", f.entry.term.locstr(), "only %d outcomes could be evaluated" % nleaf)
     else:
-        chk.refuted(rid, f.name, "text and length", f.entry.term.locstr(), why)
+        chk.refuted(rid, f.name, "text and length", f.entry.term.locstr(), bad)
     chk.floor(rid, n, 3, "propagation obligations")
 
 
@@ -483,7 +540,8 @@ def r4(chk, prog, m):
 
 # ---------------------------------------------------------------------------
 # R5 finite doubles never take a fixed-text rendering
-PRINTF_LIKE = {"snprintf": 2, "sprintf": 1, "sprintbuf": 1, "printbuf_memappend": 1, "printbuf_strappend": 1}
+PRINTF_LIKE = {"snprintf": 2, "sprintf": 1, "sprintbuf": 1, "printbuf_memappend": 1, "printbuf_strappend": 1,
+               "memcpy": 1, "strcpy": 1, "llvm.memcpy.p0i8.p0i8.i64": 1}
 NONFINITE_TEXT = {"NaN": fclass.NAN, "Infinity": fclass.PINF, "-Infinity": fclass.NINF}
 
 
@@ -516,6 +574,8 @@ def r5(chk, prog, m):
             txt = g.bytes.split(b"\0")[0].decode("latin-1")
             if "%" in txt:
                 continue
+            if c.callee in ("memcpy", "strcpy", "llvm.memcpy.p0i8.p0i8.i64") and txt not in NONFINITE_TEXT:
+                continue          # copies of other literals (".0", separators) are not renderings of the value
             fixed.append((c, txt))
         if not fixed:
             continue
